@@ -268,6 +268,16 @@ def replay(ctx, spell, bv, B_, mj):
             got.append((a['of_field'], a['location'], fs.get('kind'), fs.get('width'), fs.get('n')))
         if got != want or impls.get(sname, {}).get('n') != len(want):
             bad.append({sname: {'real': got, 'expected': want}})
+    en = decode_entry_items(toks)['vertex']
+    sn = {'VA': 'v_a', 'VB': 'v_b'}
+    for fn, structs in {'e0_entry': ['VA', 'VB'], 'e1_entry': ['VB'], 'e2_entry': ['VB', 'VA']}.items():
+        e = en.get(fn)
+        good = (e is not None and e['n_ret'] == len(structs) and e['buffers'] == [f'{s_} :: vertex_buffer_layout ({sn[s_]})' for s_ in structs]
+                and e['params'] == [(sn[s_], 'wgpu :: VertexStepMode') for s_ in structs])
+        if not good:
+            bad.append({fn: {'real': e, 'expected_struct_order': structs}})
+    if sorted(impls) != ['VA', 'VB'] or any(v['count_impls'] != 1 for v in impls.values()):
+        bad.append({'impls': sorted(impls)})
     det['failed'] = bad
     return bool(bad), det
 
